@@ -32,7 +32,7 @@ ENGINES = [
                        "on scripted and real states, plus direct monitors on the recorded history"},
 ]
 
-NOTES = ("Extraction is cross-checked: for C01/C14/C15/C17 and all optimiser properties (C05-C08, C18-C20) a sample of cases is also evaluated by vm_compute inside Coq and "
+NOTES = ("Extraction is cross-checked: for C01/C12/C13/C14/C15/C17 and all optimiser properties (C05-C08, C18-C20) a sample of cases is also evaluated by vm_compute inside Coq and "
          "compared there with the implementation's recorded values.  Thorough tier: coqchk re-checks the compiled theorems.  "
          "Every claimed check = (1) proof gate: full coqc build of coq/props/<id>.v and its dependencies, Print "
          "Assumptions allowlist, forbidden-token scan; (2) correspondence of the executable model with /repo's "
